@@ -160,6 +160,12 @@ def rebuild(ctx, t, na):
         return ctx.nary(op, dt, na, t.cv)
     if op == "uf":
         return ctx._mk("uf", dt, tuple(na), t.cv)
+    if op == "bitcast":
+        return ctx.bitcast(na[0], dt, t.cv)
+    if op == "byte":
+        return ctx.byte_of(na[0], na[1], dt, t.cv)
+    if op == "frombytes":
+        return ctx.from_parts(list(na), dt, t.cv)
     raise NotImplementedError(op)
 
 
